@@ -40,6 +40,13 @@ def _range(t):
     return None
 
 
+def _opname(ins):
+    for n in ("mstore8", "mstore", "sstore"):
+        if ins.startswith(n):
+            return n
+    return ins.rstrip("0123456789")
+
+
 def install():
     global _installed
     if _installed:
@@ -60,7 +67,7 @@ def install():
                     writes = any(("store" in t[0][-1]) for t in (t1, t2))
                     if writes and r1[1] < r2[2] and r2[1] < r1[2]:
                         LOG.append({"fingerprint": "are_dependent false on overlapping %s/%s" % tuple(sorted(
-                            (t1[0][-1].rstrip("0123456789"), t2[0][-1].rstrip("0123456789")))),
+                            (_opname(t1[0][-1]), _opname(t2[0][-1])))),
                             "witness": {"t1": str(t1), "t2": str(t2), "location": location}})
         except Exception as e:
             _count("monitor_internal_error")
